@@ -135,16 +135,25 @@ func (c *Ctx) roles(r *Report) *Roles {
 			}
 		})
 	}
-	// retention: function that calls os.Remove/RemoveAll
+	// retention: function that calls os.Remove/RemoveAll; if several do, the one the rotation step launches
+	var removers []*ssa.Function
 	for _, f := range c.Funcs {
+		hit := false
 		eachInstr(f, func(in ssa.Instruction) {
 			if ci, ok := in.(ssa.CallInstruction); ok {
 				if calleeIs(ci, "os", "", "Remove") || calleeIs(ci, "os", "", "RemoveAll") {
-					ro.Retention = f
+					hit = true
 				}
 			}
 		})
+		if hit {
+			removers = append(removers, f)
+		}
 	}
+	if len(removers) > 0 {
+		ro.Retention = removers[0]
+	}
+	retentionCandidates := removers
 	// rotation step: a method of a leaf appender, other than Start/Stop, that
 	// stores into a file-holding field (atomic.Pointer[os.File].Store/Swap or *os.File field store)
 	for _, nt := range ro.LeafAppenders {
@@ -159,6 +168,15 @@ func (c *Ctx) roles(r *Report) *Roles {
 			}
 			if len(c.fileFieldWrites(f)) > 0 {
 				ro.Rotation = f
+			}
+		}
+	}
+	if ro.Rotation != nil {
+		for _, cand := range retentionCandidates {
+			for _, cs := range c.callSitesOf(cand) {
+				if cs.Parent() == ro.Rotation {
+					ro.Retention = cand
+				}
 			}
 		}
 	}
